@@ -198,9 +198,12 @@ def pair_check(i, j):
 
 
 def _pair_task(r):
+    global _OBJ
     lo, hi = r
     acc = sweep.new_acc()
     n = len(_U)
+    if _OBJ is None:     # every task (a fresh fork of the pristine parent) builds its own objects
+        _OBJ = [observe.cls_of(f)(s) for f, s, k in _U]
     for i in range(lo, hi):
         for j in range(n):
             acc["n"] += 1
@@ -218,11 +221,20 @@ def _pair_task(r):
     return acc
 
 
+def build_universe(tier):
+    global _U
+    _U = universe(30 if tier == "thorough" else 16, 1400 if tier == "thorough" else 420)
+
+
+def replay_task(case):
+    return core.replay_func_task(case, lambda c: build_universe(c.get("tier") or "quick"))
+
+
 def run(ctx, res):
     global _U, _OBJ
-    _U = universe(30 if ctx.thorough else 16, 1400 if ctx.thorough else 420)
+    build_universe(ctx.tier)
     ctx.log("universe: %d vectors" % len(_U))
-    accs = core.pool_map(_unary_task, core.split_range(len(_U), 64))
+    accs = core.task_map(_unary_task, core.split_range(len(_U), 64))
     orders = set()
     for a in accs:
         orders |= a["extra"].get("orders", set())
@@ -236,11 +248,8 @@ def run(ctx, res):
             break
     bad_unary = sum(a["nbad"] for a in accs)
     if bad_unary == 0:
+        accs_p = core.task_map(_pair_task, ctx.rot(core.split_range(len(_U), 256 if ctx.thorough else 128)))
         _OBJ = [observe.cls_of(f)(s) for f, s, k in _U]
-        if ctx.thorough:
-            accs_p = core.pool_map(_pair_task, ctx.rot(core.split_range(len(_U), 256)))
-        else:
-            accs_p = core.pool_map(_pair_task, ctx.rot(core.split_range(len(_U), 128)))
         # transitivity on a sub-universe, all triples
         sub = list(range(0, len(_U), max(1, len(_U) // 60)))[:60]
         tri = 0
